@@ -553,8 +553,12 @@ impl Mp4Track {
                         return Ok((base_start_time + start_offset, duration));
                     }
                 }
+                // No per-sample durations: the earlier samples of this run (not of the
+                // whole track) each last the default duration.
+                let start_offset = sample_idx as u64 * default_sample_duration as u64;
+                return Ok((base_start_time + start_offset, default_sample_duration));
             }
-            let start_offset = ((sample_id - 1) * default_sample_duration) as u64;
+            let start_offset = sample_id.saturating_sub(1) as u64 * default_sample_duration as u64;
             Ok((base_start_time + start_offset, default_sample_duration))
         } else {
             let stts = &self.trak.mdia.minf.stbl.stts;
